@@ -2,7 +2,7 @@
 /* C07.update_base_pathname: path := input; the "/." guard is inserted/removed as the serializer requires */
 void harness(void) {
   EDITOR_PROLOGUE
-  sv_t input; input.n = nondet_size(); MAKE_SV(input);
+  ND_SV(input);
   __CPROVER_assume(IN_CLASS(input, '?', '#', '#', '#', '#'));
   __CPROVER_assume(old.base.has_opaque_path || input.n == 0 || input.p[0] == '/');
   __CPROVER_assume(u.buffer.n + input.n + 2 <= STR_CAP);
